@@ -711,6 +711,9 @@ class Task:
         :param parent: new parent
         """
 
+        if parent is self:
+            raise RuntimeError(f"Task {self.id} can't be a parent of itself")
+
         if self.__wbs is None:
             # Check parent changed
             if parent is not None and (self.parent is None or id(self.parent) != id(parent)):
@@ -725,6 +728,7 @@ class Task:
             if parent in self.all_children:
                 raise RuntimeError(f"Task {parent.id} is a child of task {self.id}. Can't make child "
                                    f"a parent of its parent")
+            self.__check_no_links_with_parents(parent)
 
         if self.__parent is not None and self in self.__parent.__children:
             self.__parent.__children.remove(self)
@@ -740,6 +744,15 @@ class Task:
             self._attach(parent.__wbs)
             if parent and self not in parent.__children:
                 parent.__children.append(self)
+
+    def __check_no_links_with_parents(self, parent: 'Task'):
+        """Task and its children can't be predecessors/successors of their (new) parents"""
+        parents = [parent] + parent.__get_all_parents()
+        for t in [self] + self.__get_all_children():
+            for p in parents:
+                if p in t.__predecessors or p in t.__successors:
+                    raise RuntimeError(f"Task {t.id} is linked with task {p.id}. "
+                                       f"Can't make predecessor/successor a parent")
 
     @property
     def all_parents(self) -> _ImmutableTaskList:
@@ -786,8 +799,9 @@ class Task:
                 raise RuntimeError(f"Id intersection detected")
 
         for ch in value:
-            if self in ch.all_children:
+            if ch is self or self in ch.all_children:
                 raise RuntimeError(f"Task {self.id} is a child of {ch.id}. Can't make child a parent of its parent")
+            ch.__check_no_links_with_parents(self)
 
         for v in self.__children:
             v.__parent = None
@@ -825,9 +839,14 @@ class Task:
         _check_no_nones_in_list(value, 'predecessors')
 
         parents = self.all_parents
+        children = self.all_children
         for v in value:
+            if v is self:
+                raise RuntimeError("Can't set task as predecessor of itself")
             if v in parents:
                 raise RuntimeError("Can't set parent as predecessor")
+            if v in children:
+                raise RuntimeError("Can't set child as predecessor")
 
         for v in value:
             if self in v.all_predecessors:
@@ -871,9 +890,14 @@ class Task:
         _check_no_nones_in_list(value, 'successors')
 
         parents = self.all_parents
+        children = self.all_children
         for v in value:
+            if v is self:
+                raise RuntimeError("Can't set task as successor of itself")
             if v in parents:
                 raise RuntimeError("Can't set parent as successor")
+            if v in children:
+                raise RuntimeError("Can't set child as successor")
 
         for v in value:
             if self in v.all_successors:
